@@ -190,29 +190,36 @@ def code39Modules (T : Tables) (contents : List Nat) : Res (List Bool) := do
   let syms ← code39Symbols T contents
   code39Draw T syms
 
+def isShift39 (c : Nat) : Bool := c = 43 || c = 36 || c = 37 || c = 47
+
+/-- the character an escape pair (`c` one of + $ % /) stands for, or FormatException -/
+def pair39 (c n : Nat) : Res Nat :=
+  if c = 43 then (if 65 ≤ n ∧ n ≤ 90 then .ok (n + 32) else .error .format)
+  else if c = 36 then (if 65 ≤ n ∧ n ≤ 90 then .ok (n - 64) else .error .format)
+  else if c = 37 then
+    if 65 ≤ n ∧ n ≤ 69 then .ok (n - 38)
+    else if 70 ≤ n ∧ n ≤ 74 then .ok (n - 11)
+    else if 75 ≤ n ∧ n ≤ 79 then .ok (n + 16)
+    else if 80 ≤ n ∧ n ≤ 84 then .ok (n + 43)
+    else if n = 85 then .ok 0
+    else if n = 86 then .ok 64
+    else if n = 87 then .ok 96
+    else if n = 88 ∨ n = 89 ∨ n = 90 then .ok 127
+    else .error .format
+  else
+    if 65 ≤ n ∧ n ≤ 79 then .ok (n - 32)
+    else if n = 90 then .ok 58
+    else .error .format
+
 /-- `code39DecodeExtended` on characters; an escape character in last position indexes past the end (D15) -/
 def code39Unescape : List Nat → Res (List Nat)
   | [] => .ok []
-  | [c] => if c = 43 ∨ c = 36 ∨ c = 37 ∨ c = 47 then .error (.panic "index out of range") else .ok [c]
+  | [c] => if isShift39 c then .error (.panic "index out of range") else .ok [c]
   | c :: n :: rest =>
-    if c = 43 then
-      if 65 ≤ n ∧ n ≤ 90 then (code39Unescape rest).map ((n + 32) :: ·) else .error .format
-    else if c = 36 then
-      if 65 ≤ n ∧ n ≤ 90 then (code39Unescape rest).map ((n - 64) :: ·) else .error .format
-    else if c = 37 then
-      if 65 ≤ n ∧ n ≤ 69 then (code39Unescape rest).map ((n - 38) :: ·)
-      else if 70 ≤ n ∧ n ≤ 74 then (code39Unescape rest).map ((n - 11) :: ·)
-      else if 75 ≤ n ∧ n ≤ 79 then (code39Unescape rest).map ((n + 16) :: ·)
-      else if 80 ≤ n ∧ n ≤ 84 then (code39Unescape rest).map ((n + 43) :: ·)
-      else if n = 85 then (code39Unescape rest).map (0 :: ·)
-      else if n = 86 then (code39Unescape rest).map (64 :: ·)
-      else if n = 87 then (code39Unescape rest).map (96 :: ·)
-      else if n = 88 ∨ n = 89 ∨ n = 90 then (code39Unescape rest).map (127 :: ·)
-      else .error .format
-    else if c = 47 then
-      if 65 ≤ n ∧ n ≤ 79 then (code39Unescape rest).map ((n - 32) :: ·)
-      else if n = 90 then (code39Unescape rest).map (58 :: ·)
-      else .error .format
+    if isShift39 c then
+      match pair39 c n with
+      | .ok d => (code39Unescape rest).map (d :: ·)
+      | .error e => .error e
     else (code39Unescape (n :: rest)).map (c :: ·)
 
 /-- symbol level reading (reader without check digit): characters between the asterisks -/
@@ -267,29 +274,36 @@ def code93Modules (T : Tables) (contents : List Nat) : Res (List Bool) := do
   let syms ← code93Symbols T contents
   code93Draw T syms
 
+def isShift93 (c : Nat) : Bool := 97 ≤ c && c ≤ 100
+
+/-- the character a shift pair (`c` one of a b c d) stands for, or FormatException -/
+def pair93 (c n : Nat) : Res Nat :=
+  if c = 100 then (if 65 ≤ n ∧ n ≤ 90 then .ok (n + 32) else .error .format)
+  else if c = 97 then (if 65 ≤ n ∧ n ≤ 90 then .ok (n - 64) else .error .format)
+  else if c = 98 then
+    if 65 ≤ n ∧ n ≤ 69 then .ok (n - 38)
+    else if 70 ≤ n ∧ n ≤ 74 then .ok (n - 11)
+    else if 75 ≤ n ∧ n ≤ 79 then .ok (n + 16)
+    else if 80 ≤ n ∧ n ≤ 84 then .ok (n + 43)
+    else if n = 85 then .ok 0
+    else if n = 86 then .ok 64
+    else if n = 87 then .ok 96
+    else if 88 ≤ n ∧ n ≤ 90 then .ok 127
+    else .error .format
+  else
+    if 65 ≤ n ∧ n ≤ 79 then .ok (n - 32)
+    else if n = 90 then .ok 58
+    else .error .format
+
 /-- `code93DecodeExtended` -/
 def code93Unescape : List Nat → Res (List Nat)
   | [] => .ok []
-  | [c] => if 97 ≤ c ∧ c ≤ 100 then .error .format else .ok [c]
+  | [c] => if isShift93 c then .error .format else .ok [c]
   | c :: n :: rest =>
-    if c = 100 then
-      if 65 ≤ n ∧ n ≤ 90 then (code93Unescape rest).map ((n + 32) :: ·) else .error .format
-    else if c = 97 then
-      if 65 ≤ n ∧ n ≤ 90 then (code93Unescape rest).map ((n - 64) :: ·) else .error .format
-    else if c = 98 then
-      if 65 ≤ n ∧ n ≤ 69 then (code93Unescape rest).map ((n - 38) :: ·)
-      else if 70 ≤ n ∧ n ≤ 74 then (code93Unescape rest).map ((n - 11) :: ·)
-      else if 75 ≤ n ∧ n ≤ 79 then (code93Unescape rest).map ((n + 16) :: ·)
-      else if 80 ≤ n ∧ n ≤ 84 then (code93Unescape rest).map ((n + 43) :: ·)
-      else if n = 85 then (code93Unescape rest).map (0 :: ·)
-      else if n = 86 then (code93Unescape rest).map (64 :: ·)
-      else if n = 87 then (code93Unescape rest).map (96 :: ·)
-      else if 88 ≤ n ∧ n ≤ 90 then (code93Unescape rest).map (127 :: ·)
-      else .error .format
-    else if c = 99 then
-      if 65 ≤ n ∧ n ≤ 79 then (code93Unescape rest).map ((n - 32) :: ·)
-      else if n = 90 then (code93Unescape rest).map (58 :: ·)
-      else .error .format
+    if isShift93 c then
+      match pair93 c n with
+      | .ok d => (code93Unescape rest).map (d :: ·)
+      | .error e => .error e
     else (code93Unescape (n :: rest)).map (c :: ·)
 
 /-- symbol level reading: characters between the asterisks (data, C, K) -/
@@ -609,6 +623,18 @@ def patIndex? (p : List Nat) : List (List Nat) → Option Nat
   | [] => none
   | q :: qs => if q = p then some 0 else (patIndex? p qs).map (· + 1)
 
+/-- exact table lookup of a run-width pattern -/
+def patLookup (P : List (List Nat)) (c : List Nat) : Res Nat :=
+  match patIndex? c P with
+  | some i => .ok i
+  | none => .error .notFound
+
+/-- exact table lookup of an encoding word -/
+def wordLookup (E : List Nat) (w : Nat) : Res Nat :=
+  match indexOf? w E with
+  | some i => .ok i
+  | none => .error .notFound
+
 /-- Code 128: runs in groups of 6, STOP = last 7 -/
 def code128Ideal (T : Tables) (mods : List Bool) : Res (List Nat) := do
   if mods.head? ≠ some true then throw .notFound
@@ -617,8 +643,7 @@ def code128Ideal (T : Tables) (mods : List Bool) : Res (List Nat) := do
   let body := rs.take (rs.length - 7)
   let stop := rs.drop (rs.length - 7)
   if body.length % 6 ≠ 0 then throw .notFound
-  let codes ← ((chunks 6 body.length body).filter (· ≠ [])).mapM (fun c =>
-    match patIndex? c T.code128 with | some i => .ok i | none => .error .notFound)
+  let codes ← ((chunks 6 body.length body).filter (· ≠ [])).mapM (patLookup T.code128)
   match patIndex? stop T.code128 with
   | some 106 => code128ReadCodes (codes ++ [106])
   | _ => .error .notFound
@@ -630,7 +655,7 @@ def code93Ideal (T : Tables) (mods : List Bool) : Res (List Nat) := do
   if mods.length % 9 ≠ 1 ∨ mods.getLast? ≠ some true then throw .notFound
   let body := mods.dropLast
   let words := ((List.range (body.length / 9)).map (fun i => natOfBits ((body.drop (9 * i)).take 9)))
-  let idx ← words.mapM (fun w => match indexOf? w T.code93Enc with | some i => .ok i | none => .error .notFound)
+  let idx ← words.mapM (wordLookup T.code93Enc)
   match idx with
   | 47 :: rest =>
     match rest.getLast? with
@@ -656,7 +681,7 @@ def code39Ideal (T : Tables) (mods : List Bool) (extended : Bool) : Res (List Na
     if w0 ≠ T.code39Asterisk ∨ rest.getLast? ≠ some T.code39Asterisk then throw .notFound
     let inner := rest.dropLast
     if inner.contains T.code39Asterisk then throw .notFound
-    let syms ← inner.mapM (fun w => match indexOf? w T.code39Enc with | some i => .ok i | none => .error .notFound)
+    let syms ← inner.mapM (wordLookup T.code39Enc)
     code39ReadSymbols T syms extended
   | [] => throw .notFound
 
@@ -672,10 +697,9 @@ def itfIdeal (T : Tables) (allowed : List Nat) (mods : List Bool) : Res (List Na
   let body := (rs.drop 4).take (rs.length - 7)
   if body.length % 10 ≠ 0 then throw .notFound
   let ds ← ((chunks 10 body.length body).filter (· ≠ [])).mapM (fun c => do
-    let (one, two) := deinterleave c
-    match patIndex? one T.itfWriter, patIndex? two T.itfWriter with
-    | some a, some b => pure [a, b]
-    | _, _ => throw .notFound)
+    let a ← patLookup T.itfWriter (deinterleave c).1
+    let b ← patLookup T.itfWriter (deinterleave c).2
+    pure [a, b])
   itfReadDigits allowed ds.flatten
 
 /-- Codabar: 7 elements + 1 narrow gap per character -/
@@ -687,7 +711,7 @@ def codabarIdeal (T : Tables) (mods : List Bool) : Res (List Nat) := do
   let idx ← cs.mapM (fun c =>
     let el := c.take 7
     if el.all (fun w => w = 1 ∨ w = 2) ∧ (c.length = 7 ∨ c.getLast? = some 1) then
-      match indexOf? (natOfBits (el.map (· = 2))) T.codabarEnc with | some i => .ok i | none => .error .notFound
+      wordLookup T.codabarEnc (natOfBits (el.map (· = 2)))
     else .error .notFound)
   codabarReadSymbols T idx
 
